@@ -117,6 +117,7 @@ PLANS = {
         theorems=['Ructe.C01.textLit_ascii', 'Ructe.C01.textLit_nonascii', 'Ructe.C01.lower_text', 'Ructe.C01.render_text', 'Ructe.C01.text_node_sound', 'Ructe.C01.comment_node_sound', 'Ructe.C01.node_consumes', 'Ructe.C01.text_complete', 'Ructe.C01.escapes_complete', 'Ructe.C15Tree.body_complete', 'Ructe.C13Header.template_complete'],
         runs=[dict(suite='parse', mix='examples,text,structured', n=dict(quick=4000, thorough=80000), projection='body',
                    tags=['C01'], literal_oracle=True),
+              dict(suite='parse', srcgen=dict(quick=600, thorough=6000), mix='srcgen', n=1, projection='body', tags=['C01'], literal_oracle=True),
               dict(suite='e2e', n=dict(quick=300, thorough=6000), projection='identity', tags=['C01'])],
         correspondence='syntax tree of the parse and the body of the generated code vs Ructe.template / Ructe.writeRust; every printed text literal is decoded by the Lean model of rustc\'s literal lexer and compared with the text node',
         rule='every ASCII code point except @{} alone / at the start / middle / end of a run, at 7 nesting positions; random text over quotes, backslashes, CR/LF, NUL, controls, multi-byte scalars, escape look-alikes, the three escapes, comments; structured templates with their documented tree; non-trivial = distinct accepted syntax trees',
@@ -130,7 +131,8 @@ PLANS = {
         extra_modules=['RucteProps.C05Complete', 'RucteProps.C05Chain'],
         theorems=['Ructe.C05.expression_sound', 'Ructe.C05.exprInsideParens_sound', 'Ructe.C05.quotedString_sound', 'Ructe.C05.expression_nonempty', 'Ructe.C05.expression_no_panic', 'Ructe.C05.emit_verbatim', 'Ructe.C05.slash_pinned_witness', 'Ructe.C05.rustName_complete', 'Ructe.C05.rustComment_complete', 'Ructe.C05.quotedString_complete', 'Ructe.C05.exprInsideParens_complete', 'Ructe.C05.exprInParens_complete', 'Ructe.C05.stops_simple', 'Ructe.C05.stops_dot_nonident', 'Ructe.C05.expression_name_complete', 'Ructe.C05.expression_call_complete', 'Ructe.C05.expression_complete', 'Ructe.C05.expression_complete_follower', 'Ructe.C05.expression_complete_eof', 'Ructe.C05.expression_complete_flat', 'Ructe.C05.expression_complete_tree', 'Ructe.C05.stops_classes', 'Ructe.C05.doc_a_dot_at_a', 'Ructe.C05.doc_a_dot_eof', 'Ructe.C05.ex_paren_len', 'Ructe.C05.DExpr.wf_iff'],
         runs=[dict(suite='sub', n=dict(quick=20000, thorough=600000), projection='identity', tags=['C05']),
-              dict(suite='parse', mix='structured,examples', n=dict(quick=2000, thorough=30000), projection='body', tags=['C05'])],
+              dict(suite='parse', mix='structured,examples', n=dict(quick=2000, thorough=30000), projection='body', tags=['C05']),
+              dict(suite='parse', srcgen=dict(quick=800, thorough=8000), mix='srcgen', n=1, projection='body', tags=['C05'])],
         correspondence='consumed length / value / error list of expression, expr_inside_parens, quoted_string, rust_comment and the other named sub-parsers, and the syntax tree + body code of whole templates, vs the Lean transcription',
         rule='expressions from the documented grammar (prefix, atom, postfix chain, nested groups with plain runs / strings with every supported escape and embedded delimiters / block comments with embedded delimiters and quotes / division followed by delimiters and quotes) x 18 follower classes; near-miss token strings through 15 sub-parsers; non-trivial = distinct documented fragments',
         assumptions=['the fragment is opaque Rust: that it reaches rustc unmodified is the correspondence on the printed code; that it is evaluated once is the e2e run'],
@@ -142,7 +144,8 @@ PLANS = {
         module='RucteProps.C13',
         extra_modules=['RucteProps.C13Args', 'RucteProps.C13Header'],
         theorems=['Ructe.C13.signature_shape', 'Ructe.C13.content_exact', 'Ructe.C13.content_suffix_only', 'Ructe.C13.printParam_other', 'Ructe.C13.pinned_counterexamples','Ructe.C13.formalArgument_sound','Ructe.C13.formalArgument_has_colon','Ructe.C13.preamble_item_verbatim', 'Ructe.C13Header.typeExpression_complete', 'Ructe.C13Header.formalArgument_complete', 'Ructe.C13Header.template_complete', 'Ructe.C13Header.header_layout_irrelevant', 'Ructe.C13Header.args_verbatim', 'Ructe.C13Header.use_verbatim', 'Ructe.C13Header.typeArgs_verbatim', 'Ructe.C13Header.signature_of_source'],
-        runs=[dict(suite='parse', mix='decl,examples,structured', n=dict(quick=4000, thorough=60000), projection='header', tags=['C13'])],
+        runs=[dict(suite='parse', mix='decl,examples,structured', n=dict(quick=4000, thorough=60000), projection='header', tags=['C13']),
+              dict(suite='parse', srcgen=dict(quick=800, thorough=8000), mix='srcgen', n=1, projection='header', tags=['C13'])],
         correspondence='the printed signature (use lines, lifetime list, parameter lines) of every accepted template vs Ructe.fnHeader',
         rule='0..8 parameters over 16 type shapes incl. Content / ContentType / Contents / MyContent / &Content / Vec<Content>, 7 colon layouts, parameter names resembling internals, 0..3 use lines incl. renames/globs/nested braces; non-trivial = distinct accepted syntax trees',
         assumptions=['that calls with values of the declared types type-check is rustc\'s judgement (e2e)'],
@@ -152,9 +155,10 @@ PLANS = {
     ),
     'C15': dict(
         module='RucteProps.C15',
-        extra_modules=['RucteProps.C15Directives', 'RucteProps.C15Calls', 'RucteProps.C15Tree', 'RucteProps.C13Header'],
-        theorems=['Ructe.C15.spacelike_complete', 'Ructe.C15.layout_irrelevant_at_slot', 'Ructe.C15.comment_complete', 'Ructe.C15.multispace0_complete', 'Ructe.C15.spacelike_total', 'Ructe.C15.pinned_comment_counterexample', 'Ructe.C15.if_layout_irrelevant', 'Ructe.C15.if_else_layout_irrelevant', 'Ructe.C15.for_layout_irrelevant', 'Ructe.C15.if_name_layout_irrelevant', 'Ructe.C15.match_layout_irrelevant', 'Ructe.C15.call_layout_irrelevant', 'Ructe.C15Tree.nodes_complete', 'Ructe.C15Tree.block_complete', 'Ructe.C15Tree.body_complete', 'Ructe.C15Tree.node_complete', 'Ructe.C15Tree.layout_irrelevant_tree', 'Ructe.C15Tree.layout_irrelevant_block', 'Ructe.C15Tree.no_swallow_after_block', 'Ructe.C15Tree.cond_inner_layout', 'Ructe.C15Tree.if_inner_layout', 'Ructe.C15Tree.for_pattern_complete', 'Ructe.C15Tree.loop_expression_complete', 'Ructe.C15Tree.cond_expression_complete', 'Ructe.C15Tree.dispatch_exact', 'Ructe.C13Header.template_complete', 'Ructe.C13Header.header_layout_irrelevant', 'Ructe.C13Header.typeExpression_lead_irrelevant'],
-        runs=[dict(suite='parse', mix='structured', n=dict(quick=5000, thorough=50000), projection='text', tags=['C15'])],
+        extra_modules=['RucteProps.C15Directives', 'RucteProps.C15Calls', 'RucteProps.C15Tree', 'RucteProps.C13Header', 'RucteProofs.SrcCheck'],
+        theorems=['Ructe.C15.spacelike_complete', 'Ructe.C15.layout_irrelevant_at_slot', 'Ructe.C15.comment_complete', 'Ructe.C15.multispace0_complete', 'Ructe.C15.spacelike_total', 'Ructe.C15.pinned_comment_counterexample', 'Ructe.C15.if_layout_irrelevant', 'Ructe.C15.if_else_layout_irrelevant', 'Ructe.C15.for_layout_irrelevant', 'Ructe.C15.if_name_layout_irrelevant', 'Ructe.C15.match_layout_irrelevant', 'Ructe.C15.call_layout_irrelevant', 'Ructe.C15Tree.nodes_complete', 'Ructe.C15Tree.block_complete', 'Ructe.C15Tree.body_complete', 'Ructe.C15Tree.node_complete', 'Ructe.C15Tree.layout_irrelevant_tree', 'Ructe.C15Tree.layout_irrelevant_block', 'Ructe.C15Tree.no_swallow_after_block', 'Ructe.C15Tree.cond_inner_layout', 'Ructe.C15Tree.if_inner_layout', 'Ructe.C15Tree.for_pattern_complete', 'Ructe.C15Tree.loop_expression_complete', 'Ructe.C15Tree.cond_expression_complete', 'Ructe.C15Tree.dispatch_exact', 'Ructe.C13Header.template_complete', 'Ructe.C13Header.header_layout_irrelevant', 'Ructe.C13Header.typeExpression_lead_irrelevant', 'Ructe.Src.wfB_sound', 'Ructe.Src.templateOkB_sound'],
+        runs=[dict(suite='parse', mix='structured', n=dict(quick=5000, thorough=50000), projection='text', tags=['C15']),
+              dict(suite='parse', srcgen=dict(quick=1200, thorough=12000), mix='srcgen', n=1, projection='text', tags=['C15'])],
         correspondence='generated code, byte for byte, of canonical and perturbed prints of the same source tree vs the model\'s single answer',
         rule='every structured template printed canonically and twice with random admissible layouts (white space, LF, CRLF, tabs, 8 comment shapes incl. `**@` endings) at every slot kind; non-trivial = distinct accepted syntax trees',
         assumptions=[],
@@ -165,10 +169,12 @@ PLANS = {
     'C17': dict(
         module='RucteProps.C17',
         theorems=['Ructe.C17.announced', 'Ructe.C17.pinned_add_files_as_counterexample'],
-        runs=[dict(suite='script', mix='statics,tree', n=dict(quick=150, thorough=1500), projection='script+stdout', tags=['C17'])],
+        runs=[dict(suite='script', mix='statics,tree', n=dict(quick=150, thorough=1500), projection='script+stdout', tags=['C17']),
+              # stylesheets with partials / imports in other directories (rsass is opaque to the model: oracle only)
+              dict(suite='script', features=['sass'], mix='sassimports', n=dict(quick=40, thorough=400), projection='script+', tags=['C17'])],
         correspondence='the lines printed to stdout by a whole build-script run (public API, child process) vs Ructe.build, given the same input tree and read_dir order',
         rule='random build scripts over compile_templates / add_file / add_files / add_file_as / add_files_as (nested sub-directories) / add_file_data on random trees (tmpfs and ext4, relative and absolute paths); oracle: every directory listed and every file read or embedded is covered by a cargo:rerun-if-changed line for itself or an ancestor; non-trivial = distinct run outputs',
-        assumptions=['cargo re-runs a build script when a listed path, or anything under a listed directory, changes (cargo\'s documented rule, modelled as the `covered` predicate)', 'add_sass_file reads through rsass\' CargoContext, which prints its own lines: opaque'],
+        assumptions=['cargo re-runs a build script when a listed path, or anything under a listed directory, changes (cargo\'s documented rule, modelled as the `covered` predicate)', 'add_sass_file reads through rsass\' CargoContext, which prints its own lines: opaque to the model; the oracle on the implementation covers it (stylesheets importing partials from the same, a sub-, a sibling and a distant directory must have every loaded file announced)'],
         level_text='Theorem announced (every path the model reads is covered by a printed line) over Ructe.build; tie on the printed lines; oracle on the implementation with the harness\' own knowledge of the inputs.',
         level_note='Trusted: Lean kernel; hand-written model of lib.rs / staticfiles.rs on an abstract file system; cargo\'s rerun rule.',
         design_ref='DESIGN.md §6 C17',
@@ -970,6 +976,21 @@ def execute(prop, plan, ctx):
             if binary is None:
                 return dict(error='harness build with features ' + ','.join(r['features']) + ' failed: ' + err[-1500:])
             ctx['binary_paths'][r['features'][0]] = binary
+        if r.get('srcgen'):
+            # cases drawn from the DOMAIN OF THE COMPLETENESS THEOREMS: RucteProofs/SrcGen.lean generates source
+            # templates (header + body tree), filters them with the proved-sound checker templateOkB, prints them and
+            # their intended tree; the real parser must return exactly that tree
+            gen_path = f"{ctx['work']}/srcgen{k}.txt"
+            cnt = r['srcgen'][ctx['tier']]
+            lean_dir = os.path.join(os.environ.get('VERIF_ROOT', '/verif'), 'lean')
+            with open(gen_path, 'w') as gf:
+                g = subprocess.run(['lake', 'env', 'lean', '--run', 'tools/SrcGen.lean', str(ctx['seed']), str(cnt), str(r.get('srcgen_size', 30))],
+                                   cwd=lean_dir, stdout=gf, stderr=subprocess.PIPE, text=True, timeout=3600)
+            tail = [l for l in open(gen_path) if l.startswith('#') or l.startswith('!')]
+            if g.returncode != 0 or not tail or any(l.startswith('!') for l in tail) or 'mismatches=0' not in tail[-1]:
+                return dict(error='source-tree generator failed or disagrees with the model: ' + (g.stderr or '')[-800:] + ' '.join(tail)[-800:])
+            r = dict(r, mix='srcgen:' + gen_path, n=1)
+            cov.setdefault('extra', {})['srcgen'] = tail[-1].strip()[:3000]
         res = ctx['run_suite'](binary, ctx['driver'], r, ctx['tier'], ctx['seed'], f"{ctx['work']}/run{k}")
         if 'error' in res:
             return dict(error=res['error'])
